@@ -33,6 +33,27 @@ def ser_pt(seg, out):
         ser_pt(c, out)
 
 
+def culprits(tree):
+    """Innermost segments whose indent metas do not sum to zero although every child's do; named by the nearest
+    non-bracket segment type."""
+    out = []
+
+    def bal(seg, named):
+        if not seg.segments:
+            return int(getattr(seg, "indent_val", 0)) if seg.is_meta else 0
+        nm = named if seg.is_type("bracketed") else seg.get_type()
+        kids = [bal(c, nm) for c in seg.segments]
+        own = sum(k for c, k in zip(seg.segments, kids) if not c.segments)
+        sub = [k for c, k in zip(seg.segments, kids) if c.segments]
+        total = sum(kids)
+        if total != 0 and all(k == 0 for k in sub):
+            if nm not in out:
+                out.append(nm)
+        return total
+    bal(tree, tree.get_type())
+    return sorted(out)
+
+
 def cases(ctx):
     rng = ctx.rng
     files = gen.fixture_files()
@@ -114,11 +135,11 @@ def run(ctx, prove=True):
                 flat = []
                 ser_pt(v.tree, flat)
                 lines.append("tree.spec " + ",".join(str(x) for x in flat))
-                meta.append((d, name, txt, jctx, vi, npartial, len(flat) // 7))
+                meta.append((d, name, txt, jctx, vi, npartial, len(flat) // 7, culprits(v.tree)))
     finally:
         Sequence.match = orig
     outs = ctx.driver.run(lines)
-    for (d, name, txt, jctx, vi, npartial, nodes), out in zip(meta, outs):
+    for (d, name, txt, jctx, vi, npartial, nodes, culp), out in zip(meta, outs):
         ok_struct, ok_run, final = out.split(" ")
         final = int(final)
         has_ind = True
@@ -132,6 +153,11 @@ def run(ctx, prove=True):
             what = "indentation markers do not balance (running balance negative: %s, final balance: %d)" % (ok_run != "1", final)
             if npartial > 0:
                 ctx.violation(what, case, key=KEY_PARTIAL)
+            elif culp:
+                # a complete parse: the imbalance is written in the dialect's grammar; attribute it to the innermost
+                # named segment(s) whose own metas do not balance
+                for c in culp:
+                    ctx.violation(what, dict(case, grammar_element=c), key="grammar:%s:%s:unbalanced-indent" % (d, c))
             else:
                 ctx.violation(what, case)
 
